@@ -185,6 +185,7 @@ func (fc *FnCtx) exec(st *State, s ast.Stmt, label string) *State {
 		}
 		return st
 	case *ast.IncDecStmt:
+		fc.monitorWrite(st, x.X)
 		l := fc.lvalue(st, x.X)
 		cur := asInt(fc.load(st, l))
 		t := fc.typeOf(x.X)
@@ -311,6 +312,9 @@ func (fc *FnCtx) nameVal(v Val, hint string) Val {
 }
 
 func (fc *FnCtx) execAssign(st *State, x *ast.AssignStmt) {
+	for _, l := range x.Lhs {
+		fc.monitorWrite(st, l)
+	}
 	// op-assign
 	if x.Tok != token.ASSIGN && x.Tok != token.DEFINE {
 		l := fc.lvalue(st, x.Lhs[0])
